@@ -24,6 +24,7 @@ import (
 	"strings"
 	"time"
 
+	"raven/internal/db"
 	"raven/verifh/hx"
 	"raven/verifh/world"
 )
@@ -35,7 +36,7 @@ var alphabet = map[string][]shape{
 	"CAPABILITY":   {{"valid", "CAPABILITY"}},
 	"NOOP":         {{"valid", "NOOP"}},
 	"LOGOUT":       nil, // ends the connection: exercised separately
-	"LOGIN":        {{"missing", "LOGIN"}, {"one", "LOGIN alice"}, {"valid", "LOGIN alice@example.com pw"}},
+	"LOGIN":        {{"missing", "LOGIN"}, {"one", "LOGIN alice"}, {"valid", "LOGIN alice@example.com pw"}, {"uninitialised", "LOGIN prov@example.com pw"}},
 	"AUTHENTICATE": {{"missing", "AUTHENTICATE"}, {"unknown", "AUTHENTICATE CRAM-MD5"}},
 	"LIST":         {{"missing", "LIST"}, {"valid", `LIST "" "*"`}, {"delim", `LIST "" ""`}},
 	"LSUB":         {{"missing", "LSUB"}, {"valid", `LSUB "" "*"`}},
@@ -163,6 +164,12 @@ func main() {
 	c.Append("INBOX", "", "From: a@b\r\nTo: c@d\r\nSubject: c06secret\r\n\r\nc06secretbody\r\n")
 	c.Close()
 
+	// an account the administrator has provisioned and whose password is not initialised yet: the backend may accept its
+	// credentials, the server refuses the login
+	if dom, err := db.GetOrCreateDomain(w.Mgr.GetSharedDB(), "example.com"); err == nil {
+		db.CreateUser(w.Mgr.GetSharedDB(), "prov", dom)
+	}
+
 	kinds := []string{"plain", "tls-double", "tls-terminated", "starttls"}
 	var names []string
 	for n := range alphabet {
@@ -227,7 +234,7 @@ func main() {
 				var text string
 				switch {
 				case rng.Chance(15):
-					n, text = "LOGIN", rng.Pick([]string{"LOGIN alice@example.com pw", "LOGIN alice@example.com wrong", "LOGIN bob@example.com pw"})
+					n, text = "LOGIN", rng.Pick([]string{"LOGIN alice@example.com pw", "LOGIN alice@example.com wrong", "LOGIN bob@example.com pw", "LOGIN prov@example.com pw"})
 				case rng.Chance(15):
 					n, text = "SELECT", rng.Pick([]string{"SELECT INBOX", "SELECT nosuch", "EXAMINE INBOX", "EXAMINE Roles/x@y/INBOX", "SELECT Sent"})
 				case alphabet[n] == nil:
@@ -321,6 +328,12 @@ func check(rep *hx.Report, w *world.World, cn *conn, a *abs, name, text string, 
 	}
 	// the abstract state moves as Proto.next says
 	switch {
+	case isLogin && !r.OK() && !a.authed && !strings.HasPrefix(r.Tagged, "+"):
+		// a refused login (wrong password, no TLS, an account that may not log in yet) leaves the session unauthenticated
+		if f := cn.c.Cmd(`LIST "" "*"`); f.OK() || hasData(f) {
+			rep.Violate("impl-violation", "protocol state machine (Props.C06: a refused login changes nothing)", fmt.Sprintf("%s connection: %q was answered %q, and the LIST that follows is answered %q", cn.kind, text, r.Tagged, f.Tagged), replay)
+			return
+		}
 	case isLogin && r.OK():
 		if !cn.tls {
 			viol("credentials accepted on a connection that is not protected by TLS")
